@@ -278,7 +278,8 @@ fn typed<T: ByteValued>(cx: &mut Ctx, code: u64, off: usize, nn: usize, c: usize
 
 /// the slice over region bytes [off, off+a) reached by derivation route c (0 direct get_slice; 1 subslice of the
 /// whole region; 2 offset then subslice; 3 split_at then subslice; 4 get_ref::<[u8; a]>.to_slice(); 5
-/// get_array_ref::<u8>.to_slice(); 6 get_array_ref::<[u8; a]>(.., j+1).ref_at(j).to_slice()); routes 4 and 6 need
+/// get_array_ref::<u8>.to_slice(); 6 get_array_ref::<[u8; a]>(.., j+1).ref_at(j).to_slice(); 7 / 8 / 9 an explicit
+/// Clone::clone of the array reference / the slice / the typed reference first); routes 4, 6 and 9 need
 /// 1 <= a <= 16 and fall back to route 1 otherwise.  None = the library answered Err on the way.
 fn derived_slice<'a>(region: &'a GuestRegionMmap<()>, size: usize, off: usize, a: usize, c: usize) -> Option<VolatileSlice<'a, ()>> {
     let whole = || VolatileMemory::get_slice(&**region, 0, size).ok();
@@ -287,13 +288,28 @@ fn derived_slice<'a>(region: &'a GuestRegionMmap<()>, size: usize, off: usize, a
         2 => whole()?.offset(off).ok()?.subslice(0, a).ok(),
         3 => whole()?.split_at(off).ok()?.1.subslice(0, a).ok(),
         5 => Some(region.get_array_ref::<u8>(off, a).ok()?.to_slice()),
-        4 | 6 if (1..=16).contains(&a) => {
+        // explicit Clone::clone of an accessor (the crate derives Clone; a clone must carry the mapping handle too)
+        7 => {
+            #[allow(clippy::clone_on_copy)]
+            let arr = Clone::clone(&region.get_array_ref::<u8>(off, a).ok()?);
+            Some(arr.to_slice())
+        }
+        8 => {
+            #[allow(clippy::clone_on_copy)]
+            let sl = Clone::clone(&VolatileMemory::get_slice(&**region, off, a).ok()?);
+            Some(sl)
+        }
+        4 | 6 | 9 if (1..=16).contains(&a) => {
             macro_rules! go3 {
                 ($($k:literal),*) => {
                     match a {
                         $($k => {
                             if c == 4 {
                                 Some(region.get_ref::<[u8; $k]>(off).ok()?.to_slice())
+                            } else if c == 9 {
+                                #[allow(clippy::clone_on_copy)]
+                                let r = Clone::clone(&region.get_ref::<[u8; $k]>(off).ok()?);
+                                Some(r.to_slice())
                             } else {
                                 let j = std::cmp::min(2, off / $k);
                                 Some(region.get_array_ref::<[u8; $k]>(off - j * $k, j + 1).ok()?.ref_at(j).to_slice())
@@ -664,7 +680,7 @@ fn rand_op(rng: &mut Rng, size: u64, page: u64, allow_raw: bool) -> Tok {
     };
     match code {
         0 | 1 => op(code, off, len, 0, 0),
-        2 => op(2, off, len, rng.below(2), rng.below(7)),
+        2 => op(2, off, len, rng.below(2), rng.below(10)),
         3 | 4 => op(code, off, t, 0, 0),
         5 | 6 => op(code, off, t, nn, i),
         7 | 8 => op(code, off, t, nn, k),
@@ -725,7 +741,7 @@ fn gen(rng: &mut Rng, tier: Tier, emit: &mut dyn FnMut(Vec<Tok>)) {
                     ops.push(op(2, off, len, 1, 0));
                     ops.push(op(2, off, len, 0, 0));
                     // the same window through every derivation route
-                    for route in 1..7u64 {
+                    for route in 1..10u64 {
                         ops.push(op(2, off, len, route % 2, route));
                     }
                 }
